@@ -9,6 +9,7 @@ Line protocol of `model_c14`:
 
   CHECK <json program>      → `errors k1;k2;…` (kinds of `check`, IN ORDER) or `errors` if none
   BYTEORDER <json program>  → `bo <typeid>.<field>=<byte order|->;…` (`fieldByteOrders`)
+  FIELDLOC <json program>   → `fieldloc <typeid>.<field>:<kind>@(field|attr<i>|inherited);…` (`verifyFieldsL`)
   ATTRS <scope> <json attribute list> → `located kind@index.part[+index of the noted attribute];…`
                               (`checkAttrListL`; scope = module|struct|bits|enum|external|field|vfield|value)
   REQ <json sexpr> <size|none> → `true` / `false`      (`reqMet`)
@@ -298,6 +299,15 @@ def handle (line : String) : String :=
           (match e.note with | some j => "+" ++ toString j | none => "")
       if ks.isEmpty then "located" else "located " ++ ";".intercalate ks
     | _, _ => "bad-op"
+  | "FIELDLOC" =>
+    match Json.parse rest >>= programOfJson with
+    | .ok p =>
+      let showAt : FieldAt → String
+        | .field => "field" | .attrValue i => "attr" ++ toString i | .inherited => "inherited"
+      let ks := (verifyFieldsL p).map fun e =>
+        toString e.1 ++ "." ++ e.2.1 ++ ":" ++ showEK e.2.2.1 ++ "@" ++ showAt e.2.2.2
+      if ks.isEmpty then "fieldloc" else "fieldloc " ++ ";".intercalate ks
+    | .error _ => "bad-op"
   | "REQ" =>
     let (sz, js) := splitFirst rest
     let size : Option (Option Int) := if sz == "none" then some none else sz.toInt?.map some
